@@ -23,10 +23,7 @@ import extgen
 from extgen import val_str
 
 FID = {
-    "ns64_c02": "C02-ext-nslength-over-64", "ns64_c01": "C01-ext-nslength-over-64",
-    "nn63_c02": "C02-ext-nsnnwn-over-63", "nn63_c01": "C01-ext-nsnnwn-over-63",
     "vb_c02": "C02-ext-version-brackets-flattened",
-    "uskip": "C01-ext-uper-skip-unknown", "oskip": "C01-ext-oer-skip-unknown",
     "xernl": "C01-xer-trailing-newline",
     "empty_c02": "C02-ext-empty-sequence-not-extensible", "empty_c01": "C01-ext-empty-sequence-not-extensible",
 }
@@ -66,6 +63,14 @@ def make_cases(mods, rng, tier):
                     tr = sorted(set(tr), key=tns.index)
                 if m["name"] == "XB":
                     continue      # the size cases below
+                if m["name"] == "XP":
+                    # preamble length: every presence pattern of the OPTIONAL root members x additions none / all
+                    k = sum(1 for t in x["rtrees"] if t[0] == "?")
+                    for rp in extgen.root_presence_patterns(k, rng):
+                        for p in (["none"] if x["nadd"] == 0 else ["none", "all"]):
+                            add(m, tn, extgen.seq_value(x, extgen.presence(p, x["nadd"], rng), rng, rpres=rp),
+                                "preamble:k%d:%s:%s" % (k, "".join("1" if b else "0" for b in rp) or "-", p), tr)
+                    continue
                 if x["kind"] == "seq":
                     n = x["nadd"]
                     pats = ["none"] if n == 0 else extgen.PATTERNS
@@ -222,7 +227,7 @@ def model_decode(model, cases, rng):
             if c["uper"] != "NONE":
                 q(c["md"], "uper", "xuperdec 0 %s %s" % (e, c["uper"]))
             if c["oer"] != "NONE":
-                q(c["md"], "oer", "xoerdec 0 %s %s" % (e, c["oer"]))
+                q(c["md"], "oer", "xoerdec %s %s" % (e, c["oer"]))
         for t in c["tr"]:
             if t["skip_model"]:
                 continue
@@ -235,8 +240,7 @@ def model_decode(model, cases, rng):
                 q(t, "uper0", "xuperdec 0 %s %s" % (e2, c["uper"]))
                 q(t, "uper1", "xuperdec 1 %s %s" % (e2, c["uper"]))
             if c["oer"] != "NONE":
-                q(t, "oer0", "xoerdec 0 %s %s" % (e2, c["oer"]))
-                q(t, "oer1", "xoerdec 1 %s %s" % (e2, c["oer"]))
+                q(t, "oer", "xoerdec %s %s" % (e2, c["oer"]))
     out = model_lines(model, lines, "decode")
     for (target, key), o in zip(slots, out):
         target[key] = o
@@ -256,14 +260,6 @@ def build(run, rng, tier, tag):
     run.count("ext_modules", len(mods))
     TIMES["build"] = round(time.time() - t0, 1)
     return mods, time.time() - t0
-
-
-def over64(c):
-    return c["x"]["kind"] == "seq" and c["x"]["nadd"] > 64 and any(a[0] == "!" for a in c["v"][1][len(c["x"]["rtrees"]):])
-
-
-def idx_over63(c):
-    return c["x"]["kind"] == "choice" and c["v"][1] - len(c["x"]["rtrees"]) > 63
 
 
 def degenerate(x):
@@ -344,7 +340,7 @@ def spec_part(run, model, rng, tier):
     osz = [0, 1, 2, 127, 128, 129, 16383, 16384, 16385, 32768, 65536, 81920] + ([49152, 65537, 98304] if tier != "quick" else [])
     blobs = [bytes((i * 7 + s) % 256 for i in range(s)) for s in osz if s > 0]
     lines += ["spec_open %s" % b.hex() for b in blobs] + ["xopen %s" % b.hex() for b in blobs]
-    lines += ["spec_nslength 1 %d" % n for n in (1, 2, 63, 64, 65, 127, 128, 16383)] + ["spec_nsnnwn 1 %d" % n for n in (0, 1, 62, 63, 64, 255, 256, 65535)]
+    lines += ["spec_nslength %d" % n for n in (1, 2, 63, 64, 65, 66, 127, 128, 129, 16383)] + ["spec_nsnnwn %d" % n for n in (0, 1, 62, 63, 64, 65, 255, 256, 65535, 65536)]
     out = model_lines(model, lines, "spec")
     for l, o in zip(lines, out):
         run.case(l[:200])
@@ -358,10 +354,10 @@ def spec_part(run, model, rng, tier):
         elif cmd in ("spec_open", "xopen"):
             exp = py_open_type(bytes.fromhex(args[0])).hex()
         elif cmd == "spec_nslength":
-            n = int(args[1])
+            n = int(args[0])
             exp = format(n - 1, "07b") if n <= 64 else "1" + (format(n, "08b") if n <= 127 else format(n | 0x8000, "016b"))
         else:
-            n = int(args[1])
+            n = int(args[0])
             nb = (n.bit_length() + 7) // 8
             exp = format(n, "07b") if n <= 63 else "1" + format(nb, "08b") + format(n, "0%db" % (8 * nb))
         if o != exp:
@@ -413,11 +409,7 @@ def run_c02(run, rng, tier):
                                   no_input=not bad)
                     continue
                 if std != faithful:
-                    if s == "uper" and over64(c):
-                        run.known_finding(FID["ns64_c02"], line[:200])
-                    elif s == "uper" and idx_over63(c):
-                        run.known_finding(FID["nn63_c02"], line[:200])
-                    elif c["x"].get("std_ety") and s in ("uper", "oer"):
+                    if c["x"].get("std_ety") and s in ("uper", "oer"):
                         run.known_finding(FID["vb_c02"], line[:200])
                     elif s == "uper" and has_semi(c):
                         run.known_finding("C02-uper-semiconstrained", line[:200])
@@ -445,12 +437,6 @@ def classify_rt(run, c, line, out):
             continue
         if syn == "cper" and st.startswith("ENCFAIL") and has_semi(c, lb_only=True):
             run.known_finding("C01-uper-semiconstrained-lb", line[:200])
-            continue
-        if syn == "cper" and st.startswith("DEC:") and over64(c):
-            run.known_finding(FID["ns64_c01"], line[:200])
-            continue
-        if syn == "cper" and st.startswith("DEC:") and idx_over63(c):
-            run.known_finding(FID["nn63_c01"], line[:200])
             continue
         run.violation("ext:oracle:roundtrip(%s)" % syn, replay_of(c, what="encode-then-decode does not return the value: " + st, command_line=line, c=out))
 
@@ -490,7 +476,7 @@ def run_c01(run, rng, tier):
             for s, key in (("ber", "der"), ("uper", "uper"), ("oer", "oer")):
                 if c[key] != "NONE":
                     q("dec", c, "dec %s %s %s" % (c["tn"], s, c[key]), (s, key))
-            if c["uper"] != "NONE" and c["oer"] != "NONE" and not over64(c) and not idx_over63(c) and not degenerate(c["x"]):
+            if c["uper"] != "NONE" and c["oer"] != "NONE" and not degenerate(c["x"]):
                 if has_setof(c):
                     q("chain", c, "xcode %s uper %s der" % (c["tn"], c["uper"]), c["der"])
                 else:
@@ -527,13 +513,6 @@ def run_c01(run, rng, tier):
                     if degenerate(c["x"]) and s == "oer" and o.startswith("OK 0 "):
                         run.known_finding(FID["empty_c01"], line[:200])
                         continue
-                    if s == "uper" and (over64(c) or idx_over63(c)):
-                        # the model of the C encoder writes what the C decoder cannot read back: same findings as in rt
-                        run.known_finding(FID["ns64_c01"] if over64(c) else FID["nn63_c01"], line[:200])
-                        mo = c["md"].get(s)
-                        if mo is not None and (mo == "FAIL") != (not o.startswith("OK ")) or (mo and mo != "FAIL" and mo.split()[1] != o.split()[1]):
-                            run.violation("ext:correspondence:%s_dec" % s, replay_of(c, what="the C decoder rejects the bytes, the model of the C accepts them", command_line=line, c=o, model=mo), no_input=True)
-                        continue
                     run.violation("ext:correspondence:%s_dec" % s,
                                   replay_of(c, what="C decoder on the model's encoding: wrong code, consumed count or value", command_line=line, c=o,
                                             expected_prefix="OK %d %s" % (nb, c["der"]), model=c["md"].get(s)))
@@ -569,12 +548,12 @@ def check_truncated(run, c, t, s, line, o):
     unknown_alt = t["tv"] is None          # CHOICE value of an alternative the older version does not have
     want = None if unknown_alt else "OK %d %s" % (nb, t.get("xder", "?"))
     if t.get("skip_model"):
-        # large value, model decoders not run: the oracle alone (BER always; UPER/OER only where skipping is known to work)
-        if s == "ber" and not unknown_alt and not c_ok:
-            run.violation("ext:oracle:truncated(%s)" % s, dict(rp, what="an older version of the type does not decode the value"))
+        # large value, model decoders not run: the oracle alone (accepted, everything consumed)
+        if not unknown_alt and not o.startswith("OK %d " % nb):
+            run.violation("ext:oracle:truncated(%s)" % s, dict(rp, what="an older version of the type does not decode the value, or does not consume all of it"))
         return
-    m0 = t.get({"ber": "ber", "uper": "uper0", "oer": "oer0"}[s])
-    m1 = t.get({"ber": "ber", "uper": "uper1", "oer": "oer1"}[s])
+    m0 = t.get({"ber": "ber", "uper": "uper0", "oer": "oer"}[s])
+    m1 = t.get({"ber": "ber", "uper": "uper1", "oer": "oer"}[s])
     if m0 is None:
         return
     # --- faithfulness: C vs model std=0
@@ -595,13 +574,8 @@ def check_truncated(run, c, t, s, line, o):
         if m1 != "OK %d %s" % (nb, t["tvs"]) and not (has_setof(c) and m1.startswith("OK %d " % nb)):
             run.violation("ext:model:truncated(%s)" % s, dict(rp, what="the standard reading of the model does not return the known part (model defect)", standard=m1), no_input=True)
         return
-    if s == "uper" and m0 != m1:
-        run.known_finding(FID["uskip"].replace("C01", run.prop), line[:200])
-    elif s == "oer" and m0 != m1:
-        run.known_finding(FID["oskip"].replace("C01", run.prop), line[:200])
-    else:
-        run.violation("ext:oracle:truncated(%s)" % s, dict(rp, what="an older version of the type does not get the known part of the value back, or not all octets are consumed",
-                                                          expected=want, model=m0, standard=m1))
+    run.violation("ext:oracle:truncated(%s)" % s, dict(rp, what="an older version of the type does not get the known part of the value back, or not all octets are consumed",
+                                                      expected=want, model=m0, standard=m1))
 
 
 # ---------------------------------------------------------------- C03
@@ -647,7 +621,7 @@ def run_c03(run, rng, tier):
             e2 = x2["ety"]
             for key, line in (("xder", "xder %s %s" % (e2, o["pvs"])), ("ber", "xberdec %s %s" % (e2, c["der"])),
                               ("uper0", "xuperdec 0 %s %s" % (e2, c["uper"])), ("uper1", "xuperdec 1 %s %s" % (e2, c["uper"])),
-                              ("oer0", "xoerdec 0 %s %s" % (e2, c["oer"])), ("oer1", "xoerdec 1 %s %s" % (e2, c["oer"]))):
+                              ("oer", "xoerdec %s %s" % (e2, c["oer"]))):
                 if key.startswith("uper") and (c["uper"] == "NONE" or c["uper"] != c["uperstd"]):
                     continue
                 if key.startswith("oer") and c["oer"] == "NONE":
@@ -675,7 +649,7 @@ def run_c03(run, rng, tier):
                     lines.append("dec %s oer %s" % (t["tn"], c["oer"])); meta.append(("tr", c, (t, "oer")))
             for o in c["old"]:
                 for s, key in (("ber", "der"), ("uper", "uper"), ("oer", "oer")):
-                    if (s + ("" if s == "ber" else "0")) in o:
+                    if (s + ("0" if s == "uper" else "")) in o:
                         lines.append("dec %s %s %s" % (o["tn"], s, c[key])); meta.append(("old", c, (o, s, key)))
         if not lines:
             continue
@@ -693,8 +667,8 @@ def run_c03(run, rng, tier):
             nb = len(c[key]) // 2
             want = "OK %d %s" % (nb, od["xder"])
             rp = replay_of(c, newer_type=od["tn"], newer_model_type=od["x"]["ety"], syntax=s, command_line=line, c=o, expected=want)
-            m0 = od.get("ber" if s == "ber" else s + "0")
-            m1 = od.get("ber" if s == "ber" else s + "1")
+            m0 = od.get("uper0" if s == "uper" else s)
+            m1 = od.get("uper1" if s == "uper" else s)
             mwant = "OK %d %s" % (nb, od["pvs"])
             for mm, nm in ((m0, "model of the C"), (m1, "standard reading of the model")):
                 if mm != mwant and not (has_setof(c) and mm.startswith("OK %d " % nb)):
